@@ -1,11 +1,19 @@
 (* C04/Examples.v — non-vacuity: concrete, non-trivial instances of the hypotheses of the
-   theorems in C04/Properties.v, on a real handshake (receiver, SASL PLAIN + bind on a secure
-   connection; the scripts are those of the harness scenario recv-sasl-bind) and on the plain
-   initiator handshake. Concrete runs are evaluated by vm_compute only. *)
-From XV Require Import lib.Bytes gen.NegTables C04.Model C04.Generic C04.Structure C04.Proofs C04.Properties.
+   theorems in C04/Properties.v, and the witnesses that refuted three statements of the
+   earlier code, replayed on the model of the repaired code. Concrete runs are evaluated by
+   vm_compute only. *)
+From XV Require Import lib.Bytes gen.NegTables C04.Model C04.Generic C04.Structure C04.Fuel C04.Proofs C04.Properties.
 
-Definition ex_calls : list sval := [VStep false SNone; VBind false].
-Definition ex_run (pl : plan) := run wit_flush_cfg pl 9%N wit_flush_clear [] ex_calls.
+(* receiver, SASL PLAIN + bind on a secure connection (harness scenario recv-sasl-bind) *)
+Definition ex_cfg : config :=
+  mkCfg NStd false [mkF FSASL 0 0 true false false; mkF FBind 0 0 true false false].
+Definition ex_clear : list sitem :=
+  [Brk; T Decl; T (Open (KHdr true true false));
+   Brk; T (Open (KSel 0 (EAuth true true))); T (Text false); T Close;
+   Brk; T Decl; T (Open (KHdr true true false));
+   Brk; T (Open (KIq false)); T (Open (KSel 1 EBindReq)); T Close; T Close].
+Definition ex_calls : list sval := [VStep false SNone; VBind BOk].
+Definition ex_run (pl : plan) := run ex_cfg pl 9%N ex_clear [] ex_calls.
 
 (* the un-faulted handshake completes: Ok, Received|Secure|Authn|Ready, 10 operations *)
 Example ex_unfaulted_ok :
@@ -14,61 +22,62 @@ Example ex_unfaulted_ok :
   w_ops (snd (ex_run (mkPlan FNone None true))) = 10.
 Proof. vm_compute. repeat split. Qed.
 
-(* premises of C04_cut_fails_closed at k = 4 (the <success/> flush, the one write whose own
-   error is dropped): k is below the 10 operations, the cut run is calm; and the conclusion *)
-Example ex_cut_premises :
-  4 < w_ops (snd (ex_run (mkPlan FNone None true))) /\
-  forallb (calm_evb wit_flush_cfg) (w_trace (snd (ex_run (mkPlan (FCut 4) None true)))) = true.
-Proof. vm_compute. split; [lia | reflexivity]. Qed.
+(* every cut point, every transient fault, every blocked and every idle cancellation of this
+   handshake: error, Ready clear (the theorems cover all handshakes; this is one instance
+   of their premises k < 10) *)
+Definition closed (pl : plan) : bool :=
+  match fst (ex_run pl) with RErr => true | _ => false end && negb (is_ready (w_bits (snd (ex_run pl)))).
 
-Example ex_cut_conclusion :
-  fst (ex_run (mkPlan (FCut 4) None true)) = RErr /\
-  w_bits (snd (ex_run (mkPlan (FCut 4) None true))) = 11%N.   (* Received|Secure|Authn, no Ready *)
+Example ex_every_cut_fails : forallb (fun k => closed (mkPlan (FCut k) None true)) (seq 0 10) = true.
+Proof. vm_compute. reflexivity. Qed.
+Example ex_every_transient_fails : forallb (fun k => closed (mkPlan (FTransient k) None true)) (seq 0 10) = true.
+Proof. vm_compute. reflexivity. Qed.
+Example ex_every_blocked_cancel_fails : forallb (fun k => closed (mkPlan (FTransient k) (Some k) true)) (seq 0 10) = true.
+Proof. vm_compute. reflexivity. Qed.
+Example ex_every_idle_cancel_fails : forallb (fun c => closed (mkPlan FNone (Some c) true)) (seq 0 10) = true.
+Proof. vm_compute. reflexivity. Qed.
+
+(* former witness 1 (sasl.go dropped the flush error of <success/>): exactly operation 4, the
+   Write of <success/>, fails. Was Ok/Ready; now an error with Received|Secure only. *)
+Example ex_transient_at_success_flush :
+  fst (ex_run (mkPlan (FTransient 4) None true)) = RErr /\
+  w_bits (snd (ex_run (mkPlan (FTransient 4) None true))) = 9%N.
 Proof. vm_compute. split; reflexivity. Qed.
 
-(* every cut point of this handshake, by computation (the theorem covers all handshakes) *)
-Example ex_every_cut_fails :
-  forallb (fun k => match fst (ex_run (mkPlan (FCut k) None true)) with RErr => true | _ => false end
-                    && negb (is_ready (w_bits (snd (ex_run (mkPlan (FCut k) None true))))))
-          (seq 0 10) = true.
-Proof. vm_compute. reflexivity. Qed.
+(* former witness 2 (features.go kept the Ready bit of a voluntary feature): a voluntary
+   custom feature reports Ready, the required one negotiated next fails. Was an error with
+   Ready set; now the bit is cleared. *)
+Definition ex2_cfg : config :=
+  mkCfg NStd false [mkF FCustom 0 0 true false false; mkF FCustom 0 0 true false false].
+Definition ex2_clear : list sitem :=
+  [Brk; T Decl; T (Open (KHdr true true true));
+   Brk; T (Open KFeatures); T (Open (KFeat 0 false false)); T Close; T (Open (KFeat 1 true false)); T Close; T Close].
+Definition ex2_run := run ex2_cfg (mkPlan FNone None true) 0%N ex2_clear [] [VChoice 0; VOut 4 false false; VChoice 1; VOut 0 false true].
+Example ex_voluntary_ready_then_failure :
+  fst ex2_run = RErr /\ is_ready (w_bits (snd ex2_run)) = false /\
+  In (ENegOk 0 4%N RSNone) (w_trace (snd ex2_run)).
+Proof. vm_compute. repeat split. tauto. Qed.
 
-(* the same fault as a transient one is the refutation witness of Properties.v: Ok *)
-Example ex_transient_at_flush_ok : fst (ex_run (mkPlan (FTransient 4) None true)) = ROk tt.
-Proof. vm_compute. reflexivity. Qed.
+(* former witness 3 (session.go ignored a cancellation after the last stream header):
+   initiator, header and empty features list in two Reads, cancelled when the second Read is
+   entered. Was Ok; now an error. *)
+Definition ex3_clear : list sitem :=
+  [Brk; T Decl; T (Open (KHdr true true true)); Brk; T (Open KFeatures); T Close].
+Definition ex3_run (c : option nat) := run (mkCfg NStd false []) (mkPlan FNone c true) 0%N ex3_clear [] [].
+Example ex_cancel_after_last_header :
+  fst (ex3_run None) = ROk tt /\ w_ops (snd (ex3_run None)) = 3 /\
+  fst (ex3_run (Some 1)) = RErr /\ fst (ex3_run (Some 2)) = RErr.
+Proof. vm_compute. repeat split. Qed.
 
-(* every other transient fault of this handshake fails closed *)
-Example ex_other_transients_fail :
-  forallb (fun k => match fst (ex_run (mkPlan (FTransient k) None true)) with RErr => true | _ => false end)
-          [0; 1; 2; 3; 5; 6; 7; 8; 9] = true.
-Proof. vm_compute. reflexivity. Qed.
+(* bind.go's receiving side: the callback answers with a stanza error: the error IQ is
+   written, and the session is not reported ready *)
+Example ex_bind_stanza_error :
+  fst (run ex_cfg (mkPlan FNone None true) 9%N ex_clear [] [VStep false SNone; VBind BStanza]) = RErr /\
+  In (EWrite WBindRes true) (w_trace (snd (run ex_cfg (mkPlan FNone None true) 9%N ex_clear [] [VStep false SNone; VBind BStanza]))).
+Proof. vm_compute. split; [reflexivity | tauto]. Qed.
 
-(* premises of C04_cancel_while_blocked_fails at c = 4, and the outcome *)
-Example ex_blocked_cancel :
-  forallb (calm_evb wit_flush_cfg) (w_trace (snd (ex_run (mkPlan (FTransient 4) (Some 4) true)))) = true /\
-  fst (ex_run (mkPlan (FTransient 4) (Some 4) true)) = RErr.
-Proof. vm_compute. split; reflexivity. Qed.
-
-(* premise of C04_cancel_before_step_partial: the un-cancelled run makes a ctx test (that of
-   the second stream header, 5 operations performed) after operation 3 *)
-Example ex_cancel_partial_premise :
-  In (ECtxPass 5) (w_trace (snd (ex_run (mkPlan FNone None true)))) /\
-  fst (ex_run (mkPlan FNone (Some 3) true)) = RErr.
-Proof. vm_compute. split; [tauto | reflexivity]. Qed.
-
-(* ... and a cancellation after the last header is ignored (C04_cancel_before_step_refuted) *)
-Example ex_cancel_after_last_header_ignored :
-  fst (ex_run (mkPlan FNone (Some 7) true)) = ROk tt.
-Proof. vm_compute. reflexivity. Qed.
-
-(* the calm-run premise is not vacuous the other way either: the witness of
-   C04_error_state_not_ready_refuted is rejected by the checker *)
-Example ex_not_calm :
-  forallb (calm_evb wit_ready_cfg) (w_trace wit_ready_world) = false.
-Proof. vm_compute. reflexivity. Qed.
-
-(* the built-in features' masks are the ones the proofs rely on (gen/NegTables.v is
-   regenerated from the source on every run) *)
+(* the built-in features' masks are the ones the model uses (gen/NegTables.v is regenerated
+   from the source on every run) *)
 Example ex_tables :
   st_Secure = 1%N /\ st_Authn = 2%N /\ st_Ready = 4%N /\ st_Received = 8%N /\
   ft_sasl_nec = st_Secure /\ ft_sasl_proh = st_Authn /\ ft_bind_nec = st_Authn /\ ft_bind_proh = st_Ready /\
